@@ -26,6 +26,11 @@ Lemma tosubscribe_written_under_broker_lock : mark_early = true.
 Proof. exact mark_early_true. Qed.
 Lemma first_channel_of_subject_checked : first_checked = true.
 Proof. exact first_checked_true. Qed.
+(* Update queues its event with an unconditional blocking send (with a select/default the flag is
+   false, the model drops the event when the queue is full, and Wake.v - hence quiescent_delivered -
+   no longer goes through: see drop_when_full_loses_last_offset_refuted) *)
+Lemma update_enqueue_is_blocking : upd_blocking = true.
+Proof. exact upd_blocking_true. Qed.
 
 (* 1. Quiescence.  In every reachable state in which the event queue is empty, the notifier is
    idle and no API call is in flight, every subscription of a channel whose watcher is waiting
@@ -102,6 +107,31 @@ Theorem update_completes_without_watchers :
                        /\ (forall c, wv (chans s1) c = wv (chans s) c)
                        /\ step s1 (AUpdEnq p) = Some (s2, ONone).
 Proof. exact (update_completes_without_watchers_proved events_cap_positive). Qed.
+
+(* 3b. The enqueue of Update waits for nothing but room in the queue and never loses its event:
+   whenever the step is taken the projection is queued. *)
+Theorem update_event_never_dropped :
+  forall s p s' o, step s (AUpdEnq p) = Some (s', o) -> queue s' = queue s ++ [p].
+Proof. exact update_event_never_dropped_proved. Qed.
+
+(* This is what quiescent_delivered rests on.  Under drop-when-full semantics of that enqueue
+   (step_drop = the model with upd_blocking = false) the statement is false: ten queued updates
+   of another projection, the update of projection 0 to 5 returns without an event, and at
+   quiescence the waiting watcher of projection 0 has delivered 0 <> 5. *)
+Theorem drop_when_full_loses_last_offset_refuted :
+  exists s evs ch,
+    run_with step_drop adm_mono (init qbig) (burst ++ [AUpdEnq 0] ++ drain10) = Some (s, evs) /\
+    quiet s = true /\ get 0 (chans s) = Some ch /\ c_w ch = WIdle /\ get 0 (c_subs ch) = Some 0 /\ offset s 0 = 5.
+Proof. exact drop_when_full_loses_last_offset_proved. Qed.
+
+(* the same schedule on the code as it is: the Update is blocked while the queue is full
+   (ABlocked accepted, AUpdEnq not enabled), passes after one dequeue, and 5 is delivered *)
+Example blocking_send_keeps_last_offset :
+  exists s evs s' evs',
+    run adm_mono (init qbig) (burst ++ [ABlocked 0]) = Some (s, evs) /\ step s (AUpdEnq 0) = None /\
+    run adm_mono s ([ANDeq; AUpdEnq 0; ANMerge] ++ drain10 ++ [ANSend 0; AWTake 0; AWScan 0; AWDeliver 0]) = Some (s', evs') /\
+    quiet s' = true /\ reports 0 0 evs' = [5].
+Proof. exact blocking_send_keeps_last_offset_proved. Qed.
 
 (* 4. Quotas.  For every schedule: the broker's counters equal the true numbers of live channels
    and subscriptions (globally and per subject) and the true numbers respect the quotas ... *)
@@ -191,6 +221,8 @@ Print Assumptions reported_le_offset.
 Print Assumptions update_store_enabled.
 Print Assumptions notifier_drains_alone.
 Print Assumptions update_completes_without_watchers.
+Print Assumptions update_event_never_dropped.
+Print Assumptions drop_when_full_loses_last_offset_refuted.
 Print Assumptions quota_invariant.
 Print Assumptions cleanup_returns_all.
 Print Assumptions run_is_reach.
